@@ -450,8 +450,15 @@ def lazy_partial_oracle(run):
             continue  # homogeneous: not the case of interest
         psx = G.prog_sx(prog)
         run.case(("lazy", psx, str(members)))
-        tds = [G.make_input(m) for m in members]
-        lazy = LazyStackedTensorDict(*tds, stack_dim=0)
+        # members with 0-2 batch dims, stacked along any dim (stack_dim != 0: iterating the lazy stack does NOT yield the members)
+        shape = rng.choice([(), (2,), (2,), (2, 1), (3, 2)])
+        stack_dim = rng.randrange(0, len(shape) + 1)
+        if rng.random() < 0.25:
+            stack_dim -= len(shape) + 1          # the same dim, spelled negatively
+        run.count("lazy.member_rank", len(shape))
+        run.count("lazy.stack_dim", stack_dim)
+        tds = [G.make_input(m).expand(*shape).clone() if shape else G.make_input(m) for m in members]
+        lazy = LazyStackedTensorDict(*tds, stack_dim=stack_dim)
         try:
             with time_limit(90):
                 out = seq(lazy)
@@ -469,10 +476,14 @@ def lazy_partial_oracle(run):
                     for i, k in enumerate(m["outs"]):
                         if k != G.SINK:
                             env[k] = G.app_val(m["f"], a, i)
-            if sorted(env.items()) != sorted((k, int(v.item())) for k, v in td.items()):
+            got = []
+            for k, v in td.items():
+                flatv = v.reshape(-1)
+                got.append((k, int(flatv[0].item()) if bool((flatv == flatv[0]).all()) and tuple(v.shape) == tuple(shape) else "non-uniform-or-misshaped"))
+            if sorted(env.items()) != sorted(got):
                 bad.append(mem)
         if bad:
-            run.oracle_fail("partial_tolerant", [psx, str(members)], f"members {bad} differ from running, on each member, the modules whose in_keys it holds", "lazy_partial")
+            run.oracle_fail("partial_tolerant", [psx, str(members), list(shape), stack_dim], f"members {bad} differ from running, on each member, the modules whose in_keys it holds", "lazy_partial")
         else:
             run.oracle_ok("partial_tolerant")
 
